@@ -119,11 +119,57 @@ def numbering_probes(ctx, d):
     d.flags = saved
 
 
+def regfam_probes(ctx, d):
+    """Deterministic register-family probes: for every family and every pair of widths, a bare or suffixed definition followed by
+    a suffixed use, on the same architectural register (must match) and on another register of the family (must not);
+    capture names with capital letters, digits and dashes."""
+    from jv import dsl, listing as L
+    fams = {"&genreg": {"a": {"64": "%rax", "32": "%eax", "16": "%ax", "8h": "%ah", "8l": "%al"}, "b": {"64": "%rbx", "32": "%ebx", "16": "%bx", "8h": "%bh", "8l": "%bl"}},
+            "&indreg": {"s": {"64": "%rsi", "32": "%esi", "16": "%si", "8l": "%sil"}, "d": {"64": "%rdi", "32": "%edi", "16": "%di", "8l": "%dil"}},
+            "&stackreg": {"sp": {"64": "%rsp", "32": "%esp", "16": "%sp", "8l": "%spl"}},
+            "&basereg": {"bp": {"64": "%rbp", "32": "%ebp", "16": "%bp", "8l": "%bpl"}}}
+    rng = ctx.rng
+    saved, d.flags = d.flags, "none"
+    for prefix, letters in fams.items():
+        for tag in ("", "-1", "-Acc", "_Ptr2"):
+            name = prefix + tag
+            l1 = rng.choice(list(letters))
+            l2 = rng.choice([x for x in letters if x != l1] or [l1])
+            w_def = rng.choice(list(letters[l1]))
+            w_use = rng.choice(list(letters[l1]))
+            w_use2 = rng.choice(list(letters[l1]))
+            insts = [L.SInst(0x401000, "add", ["$0x1", letters[l1][w_def]], None, None, 3),
+                     L.SInst(0x401003, "mov", [letters[l1][w_use], letters[l1][w_use2]], None, None, 3),
+                     L.SInst(0x401006, "add", ["$0x1", letters[l1][w_def]], None, None, 3),
+                     L.SInst(0x401009, "mov", [letters[l2].get(w_use, letters[l2]["64"]), letters[l2].get(w_use2, letters[l2]["64"])], None, None, 3),
+                     L.SInst(0x40100c, "add", ["$0x1", letters[l1][w_def]], None, None, 3),
+                     L.SInst(0x40100f, "mov", [letters[l2].get(w_use, letters[l2]["64"]), letters[l1][w_use2]], None, None, 3),
+                     L.SInst(0x401012, "ret", [], None, None, 1)]
+            prep = dsl.Prepared(d.ws, insts, rng)
+            ctx.ran()
+            if not prep.verify(d.ws):
+                ctx.inconc("parser disagreement on synthetic listing")
+                continue
+            d.prep, d.style = prep, "regfam-probe"
+
+            def sfx(w):
+                return "." + (w.upper() if rng.random() < 0.5 else w)
+            for first in (name, name + sfx(w_def)):
+                d.run_pattern([{"add": [1, first]}, {"mov": [name + sfx(w_use), name + sfx(w_use2)]}], "base", True)
+            # a use with a width the register at that place does not have
+            other = rng.choice([w for w in letters[l1] if w != w_use] or [w_use])
+            d.run_pattern([{"add": [1, name]}, {"mov": [name + sfx(other), name + sfx(w_use2)]}], "base", True)
+            ctx.event("regfam_probes")
+    d.flags = saved
+
+
 def run_shard(ctx):
     d = drive.Driver(ctx, feat, flags="random", styles=("tiny", "tiny", "dups", "regs"), quirks=QUIRKS, classify=classify,
                      accept=reuses_capture, interesting=reuses_capture, extra=twice)
     if ctx.shard == 0:
         numbering_probes(ctx, d)
+    if ctx.shard in (1, 2, 3):
+        regfam_probes(ctx, d)
     d.loop(3500, 300000)
 
 
